@@ -132,6 +132,10 @@ def model_checks(ctx: Ctx):
     # 3 atoms x 3 components (and x 6 in thorough) through the depth abstraction; AbsCommutes in the concrete
     # configurations above ties the abstraction to the real accumulated path
     ctx.model_check(AREA, "MCPathSafety", "MCQ_abs_a3p3", timeout=600)
+    # NUL-then-dotdot atoms ('NUL/..', '/..', 'a.b NUL .c' ...)
+    for cfg in (["MCQ_nul_a3p1", "MCQ_nul_a2p2", "MCQ_nul_abs_a3p3"] if q else
+                ["MCQ_nul_a3p1", "MCQ_nul_a2p2", "MCQ_nul_abs_a3p3", "MCT_nul_a3p2"]):
+        ctx.model_check(AREA, "MCPathSafety", cfg, timeout=1200)
     if not q:
         ctx.model_check(AREA, "MCPathSafety", "MCT_abs_a3p6", timeout=3000)
     for cfg in (["MCQ_san"] if q else ["MCQ_san", "MCT_san", "MCT_san7"]):
@@ -140,6 +144,7 @@ def model_checks(ctx: Ctx):
     broken = {}
     for mod, cfgs in (("MCPathSafety", ["MCV_nonorm", "MCV_noeq", "MCV_noprefix", "MCV_noabs"]),
                       ("MCPathSafety", ["MCV_abs_nonorm", "MCV_abs_noeq"]),
+                      ("MCPathSafety", ["MCV_nulpartial"]),
                       ("MCFilename", ["MCV_san_nostrip", "MCV_san_nosep", "MCV_san_nosplit", "MCV_san_rstriponly"]),
                       ("MCFilename", ["MCV_san_trunc3_idem", "MCV_san_trunc4_idem"][:1 if q else 2])):
         for cfg in (cfgs[:2] if q else cfgs):
@@ -161,7 +166,8 @@ def join_cases(ctx: Ctx):
     q = ctx.quick
     rng = random.Random(ctx.seed)
     cases = []
-    for cfg in (["MCX_a3p1", "MCX_a2p2_q", "MCX_small_p3"] if q else ["MCX_a3p1", "MCX_a2p2", "MCX_small_p3", "MCX_full_p3"]):
+    for cfg in (["MCX_a3p1", "MCX_a2p2_q", "MCX_small_p3", "MCX_nul_a3p1"] if q else
+                ["MCX_a3p1", "MCX_a2p2", "MCX_small_p3", "MCX_full_p3", "MCX_nul_a3p1"]):
         for v in ctx.export(AREA, "MCPathSafety", cfg, count_states=False, timeout=3000):
             if isinstance(v, dict) and "parts" in v:
                 cases.append([ps.txt(v["dir"]), [ps.txt(p) for p in v["parts"]], {"ok": v["ok"], "path": v["path"]}])
@@ -176,6 +182,8 @@ def join_cases(ctx: Ctx):
         cases += list(ps.enum_join_cases(ps.BASES[:4], c1, 2))
         cases += list(ps.enum_join_cases(ps.BASES[:4], ps.components(ps.CORE_ATOMS, 1), 3))
     cases += [[b, []] for b in ps.BASES]
+    # components in which a NUL (or another character a C-level normpath might stop at) is FOLLOWED by dot-dots
+    # (judged separately in run(): keys NulDotDot...)
     cases += ps.random_join_cases(rng, 4000 if q else 150000)
     return cases, n_model
 
@@ -297,7 +305,10 @@ def reinterp_requests(ctx: Ctx, probe, only=None):
     deep = not ctx.quick or only is not None          # a replayed case may stem from the thorough tier
     raws_n = ps.reinterp_raws(probe, deep=deep)
     lit, raws_l = ps.literal_tree(os.path.join(ctx.tmp, "e2e-literal"), deep=deep)
-    apis = list(ps.APIS) + (["sfd_pathlike", "sfd_cwd", "sdm_nocache", "sdm_pkg_all"] if not ctx.quick else [])
+    apis = list(ps.APIS) + (["sdm_nocache", "sdm_pkg_all"] if not ctx.quick else [])
+    # BASE x SPELLING: every base form of send_from_directory gets every home-directory spelling (quick) / every
+    # spelling (thorough); HOME points at a directory that holds sentinels
+    homes = set(ps.home_raws())
     stats = {}
     saved = {k: os.environ.get(k) for k in ("HOME", "PWD")}
     try:
@@ -310,6 +321,8 @@ def reinterp_requests(ctx: Ctx, probe, only=None):
                 targets = [(only["api"], raw), (only["api"], "a.txt"), (only["api"], "nothing-here")]
             else:
                 targets = [(api, raw) for api in apis for raw in raws]
+                targets += [(api, raw) for api in ps.BASE_FORM_APIS for n, raw in enumerate(raws)
+                            if not ctx.quick or raw in homes or n % 5 == 0]
             stats[name] = judge_serves(ctx, targets, tree, kind="reinterp", prefix="Reinterp", case_extra={"tree": name})
     finally:
         for k, v in saved.items():
@@ -461,6 +474,10 @@ def run(ctx: Ctx):
     ctx.notes["join_outcomes"] = seen
     if ctx.notes["join_outcomes"]["path"] == 0 or ctx.notes["join_outcomes"]["none"] == 0:
         raise MachineryError(f"safe_join driver is vacuous: {ctx.notes['join_outcomes']}")
+    nul = ps.nul_join_cases(q)
+    ctx.notes["nul_then_dotdot_outcomes"] = dict(judge_joins(ctx, nul, prefix="NulDotDot"), cases=len(nul))
+    if ctx.notes["nul_then_dotdot_outcomes"]["path"] < 100 or ctx.notes["nul_then_dotdot_outcomes"]["none"] < 100:
+        raise MachineryError(f"NUL-then-dotdot driver is vacuous: {ctx.notes['nul_then_dotdot_outcomes']}")
     # end to end
     targets, probe = serve_targets(ctx)
     ctx.notes["serve_outcomes"] = judge_serves(ctx, targets, probe)
